@@ -43,9 +43,15 @@ type C15Listing struct {
 	DB     string    `json:"db"`
 	Others []string  `json:"others"`
 	Files  []C15File `json:"files"`
+	// Step2: while the receiver runs, one file that is not the newest of its instance disappears (a cleaner at work) and
+	// the instance Step2Inst publishes a newer snapshot - between two polls, so that the listing keeps its length and,
+	// where that instance does not sort last, its last name
+	Step2     bool `json:"step2,omitempty"`
+	Step2Inst int  `json:"step2_inst,omitempty"`
 }
 
-var c15Insts = []string{"a", "b", "host-1"}
+// (instance names in a prefix relation included: "host-1" / "host-10", "a" / "a-b")
+var c15Insts = []string{"a", "b", "host-1", "host-10", "a-b"}
 
 // A second kind of file, registered the way a product embedding the snapshot package does: names with this
 // extension are well-formed, belong to this database - and are NOT snapshots: the receiver must never deliver one,
@@ -141,6 +147,53 @@ func checkC15Listing(c C15Listing, o *vcore.Obs) error {
 		}
 		got[inst] = name
 	}
+	if c.Step2 && len(newestOwn) > 0 {
+		// the instance that publishes, and a file to remove
+		var insts []string
+		for inst := range newestOwn {
+			insts = append(insts, inst)
+		}
+		sort.Strings(insts)
+		x := insts[c.Step2Inst%len(insts)]
+		names := b.Names()
+		sort.Strings(names)
+		remove := ""
+		for _, n := range names {
+			isNewest := false
+			for _, nn := range newestOwn {
+				isNewest = isNewest || nn == n
+			}
+			if !isNewest && n != names[len(names)-1] {
+				remove = n
+				break
+			}
+		}
+		ni, _ := snapshot.ParseName(newestOwn[x])
+		newName := snapshot.Name(c.DB, x, "GX", ni.Timestamp.Add(90*time.Minute))
+		if remove != "" && newName < names[len(names)-1] {
+			b.Remove(remove)
+			b.Put(newName, validBlob(x, 999))
+			delete(all, remove)
+			all[newName] = C15File{Inst: 0, DB: 0}
+			newestOwn[x] = newName
+			o.Class("listing-changed-in-the-middle-with-length-and-last-name-unchanged")
+			deadline := time.Now().Add(5 * time.Second)
+			for time.Now().Before(deadline) && got[x] != newName {
+				inst, u := r.Next()
+				if inst == "" {
+					time.Sleep(200 * time.Microsecond)
+					continue
+				}
+				name := u.NameInfo.FullName
+				f, known := all[name]
+				u.Close()
+				if !known || f.DB != 0 {
+					return fmt.Errorf("receiver of database %q delivered %q as a snapshot of instance %q: it is not a snapshot of this database", c.DB, name, inst)
+				}
+				got[inst] = name
+			}
+		}
+	}
 	cancel()
 	for inst, want := range newestOwn {
 		if got[inst] != want {
@@ -230,9 +283,11 @@ func genC15Listing(t *rapid.T) C15Listing {
 		}
 		c.Others = append(c.Others, od)
 	}
+	c.Step2 = rapid.Bool().Draw(t, "step2")
+	c.Step2Inst = rapid.IntRange(0, 4).Draw(t, "step2_inst")
 	n := rapid.IntRange(1, 12).Draw(t, "nfiles")
 	for i := 0; i < n; i++ {
-		f := C15File{Inst: rapid.IntRange(0, 2).Draw(t, "inst"), Hour: rapid.IntRange(0, 40).Draw(t, "hour")}
+		f := C15File{Inst: rapid.IntRange(0, 4).Draw(t, "inst"), Hour: rapid.IntRange(0, 40).Draw(t, "hour")}
 		if rapid.IntRange(0, 2).Draw(t, "subsec") == 0 {
 			// a few fixed hours and offsets, so that several snapshots of an instance fall into one second
 			f.Hour = rapid.SampledFrom([]int{40, 40, 7}).Draw(t, "same_hour")
